@@ -218,7 +218,15 @@ def run_job(spec):
             for v in tr.violations:
                 kind, _, _ = run_concrete(twin, v['args'])
                 ok = ok or kind == 'violation'
-            out['twin'] = {'refuted': ok, 'leaves': tr.leaves, 'cpu_s': tr.cpu_s}
+            how = 'solver'
+            if not ok:
+                # the wrong oracle is also reachable when a witness (which satisfies the assumptions) refutes it concretely
+                for w in wit:
+                    kind, _, _ = run_concrete(twin, w)
+                    if kind == 'violation':
+                        ok, how = True, 'witness'
+                        break
+            out['twin'] = {'refuted': ok, 'leaves': tr.leaves, 'cpu_s': tr.cpu_s, 'how': how}
         else:
             out['twin'] = None
         vac = res.holds == 0
